@@ -346,3 +346,45 @@ func HostileExprs() []string {
 	}
 	return out
 }
+
+// JoinShapeExpr builds expressions from templates biased towards shapes on which pint makes dead-code claims: joins
+// against aggregations, on/ignoring lists overlapping matcher and group_left labels, nested aggregations, fallbacks.
+func JoinShapeExpr(r *rand.Rand, o PQOpts) string {
+	g := &pq{r: r, o: o}
+	lbl := func() string { return g.pick(o.Labels) }
+	lbls := func(n int) string {
+		perm := r.Perm(len(o.Labels))
+		var ls []string
+		for i := 0; i < n && i < len(perm); i++ {
+			ls = append(ls, o.Labels[perm[i]])
+		}
+		return strings.Join(ls, ", ")
+	}
+	sel := func() string { return g.selector() }
+	agg := func() string { return g.pick([]string{"sum", "max", "min", "count", "avg", "group"}) }
+	arith := func() string { return g.pick([]string{"*", "/", "+", "-", ">", "<", "=="}) }
+	setop := func() string { return g.pick([]string{"and", "unless", "or"}) }
+	side := func() string { return g.pick([]string{"group_left", "group_right"}) }
+	switch r.Intn(8) {
+	case 0: // outer join on labels brought in (or not) by an inner group_left over a `without` aggregation
+		l1, l2 := lbl(), lbl()
+		return fmt.Sprintf("%s %s on(%s, %s) (%s without(%s) (%s) %s on(%s) %s(%s) %s)", sel(), setop(), l1, l2, agg(), l2, sel(), arith(), l1, side(), lbls(1+r.Intn(3)), sel())
+	case 1: // nested by() aggregations compared with a flat one
+		l1, l2 := lbl(), lbl()
+		return fmt.Sprintf("%s by(%s) (%s by(%s, %s) (%s{%s=\"%s\"})) %s %s by(%s) (%s)", agg(), l1, agg(), l1, l2, g.pick(o.Metrics), l2, g.pick(o.Values), arith(), agg(), l1, sel())
+	case 2: // ignoring() with a guaranteed label on the left and group modifiers
+		l1 := lbl()
+		return fmt.Sprintf("%s{%s=\"%s\"} %s ignoring(%s) %s(%s) %s by(%s) (%s)", g.pick(o.Metrics), l1, g.pick(o.Values), arith(), l1, side(), lbls(r.Intn(2)), agg(), lbls(1+r.Intn(2)), sel())
+	case 3: // set operators against aggregations
+		return fmt.Sprintf("%s %s on(%s) %s by(%s) (%s)", sel(), setop(), lbls(1+r.Intn(2)), agg(), lbls(1+r.Intn(2)), sel())
+	case 4: // plain joins where one side lost labels
+		return fmt.Sprintf("%s{%s=\"%s\"} %s %s without(%s) (%s)", g.pick(o.Metrics), lbl(), g.pick(o.Values), arith(), agg(), lbls(1+r.Intn(2)), sel())
+	case 5: // one-to-one on() then an outer join needing a label
+		l1 := lbl()
+		return fmt.Sprintf("(%s %s on(%s) %s) %s on(%s) %s", sel(), arith(), lbls(1+r.Intn(2)), sel(), setop(), l1, sel())
+	case 6: // fallbacks
+		return fmt.Sprintf("%s(%s) by(%s) %s %s or %s", agg(), sel(), lbls(r.Intn(2)), arith(), g.scalar(0), g.pick([]string{"vector(0)", "vector(1)", sel()}))
+	default: // function wrapped around an aggregation joined with a selector
+		return fmt.Sprintf("%s(%s by(%s) (%s)) %s on(%s) %s", g.pick([]string{"abs", "ceil", "floor"}), agg(), lbls(1+r.Intn(2)), sel(), arith(), lbls(1+r.Intn(2)), sel())
+	}
+}
